@@ -1960,6 +1960,59 @@ func (m *Model) ruleSHUTDOWN(r *Results) {
 	}
 	r.check(timerStop != nil && before(timerStop), rule, name+" / timer stopped first", m.instrPos(dbClose), "the expiry timer is stopped before the database is closed", "the database is closed before (or without) stopping the expiry timer: the callback then runs against a closed database")
 	r.check(feedRange != nil && before(feedRange) && len(queueCloses) > 0, rule, name+" / all feeds closed first", m.instrPos(dbClose), "every feed in the shared registry is closed before the database is closed", "shutdown does not close the feeds by walking the shared feed registry before closing the database: feeds started through another handle, or on collections this handle never opened, keep running (their done channels never close)")
+
+	// The feed's own closer (a named method that hands over to the queue's close) does so on
+	// every path: a closer that returns early for some feeds leaves those feeds' goroutines
+	// running after shutdown. Only a nil guard on the receiver may bypass the hand-over.
+	nClosers := 0
+	for _, w := range m.Funcs {
+		if w.Signature.Recv() == nil || w.Parent() != nil || len(w.Blocks) == 0 || m.isQueueMethod(w, "close") || rangesFeeds(w) != nil {
+			continue
+		}
+		c := newCut()
+		found := false
+		m.eachCall(w, func(ci ssa.CallInstruction) {
+			if callee := ci.Common().StaticCallee(); callee != nil && m.inPkg(callee) && m.isQueueMethod(callee, "close") && ci.Parent() == w {
+				found = true
+				c.cutBlock(ci.Block())
+			}
+		})
+		if !found || c.blocks[0] {
+			if found {
+				nClosers++
+				r.ok(rule, m.declName(w)+" / closes its queue on every path", m.pos(w.Pos()), "the queue's close is called in the entry block")
+			}
+			continue
+		}
+		nClosers++
+		for _, iff := range allIfs(w) {
+			cd := condOf(iff)
+			eq, ok := cd.equalEdge()
+			if !ok {
+				continue
+			}
+			var other ssa.Value
+			if isNilConst(cd.Y) {
+				other = cd.X
+			} else if isNilConst(cd.X) {
+				other = cd.Y
+			}
+			if p, isP := other.(*ssa.Parameter); isP && len(w.Params) > 0 && p == w.Params[0] {
+				c.cutEdge(iff.Block(), eq)
+			}
+		}
+		reach := entryReach(w, c)
+		escapes := false
+		for _, ret := range returnsOf(w) {
+			if reach[ret.Block().Index] {
+				escapes = true
+			}
+		}
+		r.check(!escapes, rule, m.declName(w)+" / closes its queue on every path", m.pos(w.Pos()), "every path through the feed's closer reaches the queue's close (a nil receiver aside)", "the feed's closer can return without closing the feed's queue: a feed for which it does so keeps its goroutines running after shutdown or drop, and its done channel never closes")
+	}
+	if nClosers == 0 {
+		r.undecided(rule, "feed closer", m.pos(fn.Pos()), "no named method hands over to the queue's close")
+	}
 }
 
 // manualRegion: the instructions executed between a manual Lock and the matching Unlock(s).
